@@ -555,7 +555,7 @@ impl<'de> de::Deserializer<'de> for Value {
             Value::Integer(n) => visitor.visit_i64(n),
             Value::Float(n) => visitor.visit_f64(n),
             Value::String(v) => visitor.visit_string(v),
-            Value::Datetime(v) => visitor.visit_string(v.to_string()),
+            Value::Datetime(v) => visitor.visit_map(DatetimeDeserializer::new(v)),
             Value::Array(v) => {
                 let len = v.len();
                 let mut deserializer = SeqDeserializer::new(v);
@@ -854,6 +854,44 @@ impl<'de> de::VariantAccess<'de> for MapEnumDeserializer {
     }
 }
 
+/// Presents a date-time the way the `Datetime` type expects it (see `toml_datetime`)
+struct DatetimeDeserializer {
+    date: Option<Datetime>,
+}
+
+impl DatetimeDeserializer {
+    fn new(date: Datetime) -> Self {
+        Self { date: Some(date) }
+    }
+}
+
+impl<'de> de::MapAccess<'de> for DatetimeDeserializer {
+    type Error = crate::de::Error;
+
+    fn next_key_seed<K>(&mut self, seed: K) -> Result<Option<K::Value>, crate::de::Error>
+    where
+        K: de::DeserializeSeed<'de>,
+    {
+        if self.date.is_some() {
+            seed.deserialize(de::value::BorrowedStrDeserializer::new(datetime::FIELD))
+                .map(Some)
+        } else {
+            Ok(None)
+        }
+    }
+
+    fn next_value_seed<V>(&mut self, seed: V) -> Result<V::Value, crate::de::Error>
+    where
+        V: de::DeserializeSeed<'de>,
+    {
+        if let Some(date) = self.date.take() {
+            seed.deserialize(date.to_string().into_deserializer())
+        } else {
+            panic!("next_value_seed called before next_key_seed")
+        }
+    }
+}
+
 impl IntoDeserializer<'_, crate::de::Error> for Value {
     type Deserializer = Self;
 
@@ -1046,15 +1084,18 @@ impl ser::Serializer for ValueSerializer {
                 map: Table::new(),
                 next_key: None,
             },
+            is_datetime: false,
         })
     }
 
     fn serialize_struct(
         self,
-        _name: &'static str,
+        name: &'static str,
         len: usize,
     ) -> Result<Self::SerializeStruct, crate::ser::Error> {
-        self.serialize_map(Some(len))
+        let mut ser = self.serialize_map(Some(len))?;
+        ser.is_datetime = name == datetime::NAME;
+        Ok(ser)
     }
 
     fn serialize_struct_variant(
@@ -1384,6 +1425,8 @@ impl ser::SerializeStruct for SerializeMap {
 
 struct ValueSerializeMap {
     ser: SerializeMap,
+    // The struct being serialized is a `Datetime`
+    is_datetime: bool,
 }
 
 impl ser::SerializeMap for ValueSerializeMap {
@@ -1422,6 +1465,13 @@ impl ser::SerializeStruct for ValueSerializeMap {
     }
 
     fn end(self) -> Result<Value, crate::ser::Error> {
+        if self.is_datetime {
+            if let Some(Value::String(s)) = self.ser.map.get(datetime::FIELD) {
+                if let Ok(datetime) = s.parse() {
+                    return Ok(Value::Datetime(datetime));
+                }
+            }
+        }
         ser::SerializeMap::end(self)
     }
 }
@@ -1501,6 +1551,7 @@ impl ValueSerializeVariant<ValueSerializeMap> {
                     map: Table::with_capacity(len),
                     next_key: None,
                 },
+                is_datetime: false,
             },
         }
     }
